@@ -13,7 +13,8 @@
 //   layer suffix = how the provider is built (they must all be the same provider): tp / lp = from a context; tpv / lpv = the
 //   constructor taking the vector of processors; tpp / lpp = the constructor taking one processor, the remaining children
 //   added with AddProcessor; lpd = the default constructor + AddProcessor; mp = default constructor; mpc = from a MeterContext;
-//   mpv = the (views, resource) constructor.
+//   mpv = the (views, resource) constructor; f = the provider's factory (tpf / lpf: Create(vector), mpf: Create(), mlf:
+//   MultiLogRecordProcessorFactory::Create), g = the provider's factory over the context's factory (tpg / lpg / mpg).
 //   fan <ms|tp|ml|lp|mp> <kind>:<flush script>:<shutdown script>,… ; f<z|k|l|m> ; s<z|k|l|m> ; e ; d ; c<i> ; rs<i> ; rf<i>
 //
 // s and b children sit behind a thin forwarding decorator that logs the processor-level call and its result in the
@@ -33,7 +34,14 @@
 #include "opentelemetry/sdk/logs/logger_provider.h"
 #include "opentelemetry/sdk/trace/tracer_provider.h"
 #undef private
+#include "opentelemetry/sdk/logs/logger_context_factory.h"
+#include "opentelemetry/sdk/logs/logger_provider_factory.h"
 #include "opentelemetry/sdk/logs/multi_log_record_processor.h"
+#include "opentelemetry/sdk/logs/multi_log_record_processor_factory.h"
+#include "opentelemetry/sdk/metrics/meter_context_factory.h"
+#include "opentelemetry/sdk/metrics/meter_provider_factory.h"
+#include "opentelemetry/sdk/trace/tracer_context_factory.h"
+#include "opentelemetry/sdk/trace/tracer_provider_factory.h"
 #include "opentelemetry/sdk/logs/processor.h"
 #include "opentelemetry/sdk/logs/read_write_log_record.h"
 #include "opentelemetry/sdk/logs/simple_log_record_processor.h"
@@ -443,7 +451,11 @@ struct SubjTP : Subject
   SubjTP(const std::vector<ChildSpec> &cs, const std::string &how)
   {
     auto kids = make_children<SpanSig>(cs);
-    if (how == "v" || (how == "p" && kids.empty()))
+    if (how == "f")
+      p = sdkt::TracerProviderFactory::Create(std::move(kids));
+    else if (how == "g")
+      p = sdkt::TracerProviderFactory::Create(sdkt::TracerContextFactory::Create(std::move(kids)));
+    else if (how == "v" || (how == "p" && kids.empty()))
       p.reset(new sdkt::TracerProvider(std::move(kids)));
     else if (how == "p")
     {
@@ -464,8 +476,11 @@ struct SubjTP : Subject
 };
 struct SubjML : Subject
 {
-  std::unique_ptr<sdkl::MultiLogRecordProcessor> p;
-  explicit SubjML(const std::vector<ChildSpec> &cs) : p(new sdkl::MultiLogRecordProcessor(make_children<LogSig>(cs))) {}
+  std::unique_ptr<sdkl::LogRecordProcessor> p;
+  SubjML(const std::vector<ChildSpec> &cs, const std::string &how)
+      : p(how == "f" ? sdkl::MultiLogRecordProcessorFactory::Create(make_children<LogSig>(cs))
+                     : std::unique_ptr<sdkl::LogRecordProcessor>(new sdkl::MultiLogRecordProcessor(make_children<LogSig>(cs))))
+  {}
   bool flush(usec t) override { return p->ForceFlush(t); }
   bool shutdown(usec t) override { return p->Shutdown(t); }
   bool emit() override { return emit_through<LogSig>(*p); }
@@ -478,7 +493,11 @@ struct SubjLP : Subject
   SubjLP(const std::vector<ChildSpec> &cs, const std::string &how)
   {
     auto kids = make_children<LogSig>(cs);
-    if (how == "v" || (how == "p" && kids.empty()))
+    if (how == "f")
+      p = sdkl::LoggerProviderFactory::Create(std::move(kids));
+    else if (how == "g")
+      p = sdkl::LoggerProviderFactory::Create(sdkl::LoggerContextFactory::Create(std::move(kids)));
+    else if (how == "v" || (how == "p" && kids.empty()))
       p.reset(new sdkl::LoggerProvider(std::move(kids)));
     else if (how == "p")
     {
@@ -507,7 +526,9 @@ struct SubjMP : Subject
   std::vector<Reader *> readers;  // owned by the provider's collectors
   std::unique_ptr<sdkm::MeterProvider> p;
   SubjMP(const std::vector<ChildSpec> &cs, const std::string &how)
-      : p(how == "c"   ? new sdkm::MeterProvider(std::unique_ptr<sdkm::MeterContext>(new sdkm::MeterContext()))
+      : p(how == "f"   ? sdkm::MeterProviderFactory::Create().release()
+          : how == "g" ? sdkm::MeterProviderFactory::Create(sdkm::MeterContextFactory::Create()).release()
+          : how == "c" ? new sdkm::MeterProvider(std::unique_ptr<sdkm::MeterContext>(new sdkm::MeterContext()))
           : how == "v" ? new sdkm::MeterProvider(std::unique_ptr<sdkm::ViewRegistry>(new sdkm::ViewRegistry()),
                                                  opentelemetry::sdk::resource::Resource::Create({}))
                        : new sdkm::MeterProvider())
@@ -598,8 +619,9 @@ static std::string handle(const std::vector<std::string> &toks)
   const std::string how   = ops[0][0].size() > 2 ? ops[0][0].substr(2) : std::string();
   std::vector<ChildSpec> cs;
   if (layer != "ms" && layer != "tp" && layer != "ml" && layer != "lp" && layer != "mp") return "bad-op";
-  if (!how.empty() && !((layer == "tp" && (how == "v" || how == "p")) || (layer == "lp" && (how == "v" || how == "p" || how == "d")) ||
-                        (layer == "mp" && (how == "c" || how == "v"))))
+  if (!how.empty() && !((layer == "tp" && (how == "v" || how == "p" || how == "f" || how == "g")) ||
+                        (layer == "lp" && (how == "v" || how == "p" || how == "d" || how == "f" || how == "g")) ||
+                        (layer == "mp" && (how == "c" || how == "v" || how == "f" || how == "g")) || (layer == "ml" && how == "f")))
     return "bad-op";
   if (!parse_children(layer, ops[0][1], cs)) return "bad-op";
   if (ops.size() - 1 > 64) return "bad-op";
@@ -620,7 +642,7 @@ static std::string handle(const std::vector<std::string> &toks)
   std::unique_ptr<Subject> subj;
   if (layer == "ms") subj.reset(new SubjMS(cs));
   else if (layer == "tp") subj.reset(new SubjTP(cs, how));
-  else if (layer == "ml") subj.reset(new SubjML(cs));
+  else if (layer == "ml") subj.reset(new SubjML(cs, how));
   else if (layer == "lp") subj.reset(new SubjLP(cs, how));
   else subj.reset(new SubjMP(cs, how));
   bool alive = true;
